@@ -177,7 +177,13 @@ func LifecycleScenario(t *rapid.T) sim.CScenario {
 		case roll < 96:
 			st = sim.CStep{Op: "close"}
 		default:
-			st = sim.CStep{Op: "reply", Items: []sim.ReplyItem{{Kind: pick(t, "xk", []string{"unknown", "nullid", "nonobject", "neither", "strid"}), N: 40 + s}}}
+			it := sim.ReplyItem{Kind: pick(t, "xk", []string{"unknown", "nullid", "nonobject", "neither", "strid", "badversion", "extrafield", "both", "sameidreq"}), N: 40 + s}
+			if len(open) > 0 {
+				// hostile members bear the id of a request that is still open
+				e := pick(t, "xe", open)
+				it.Op, it.I = e.op, e.i
+			}
+			st = sim.CStep{Op: "reply", Items: []sim.ReplyItem{it}}
 		}
 		st.Burst = rapid.IntRange(0, 99).Draw(t, "burst") < 40
 		sc.Steps = append(sc.Steps, st)
